@@ -12,7 +12,7 @@ import time
 VERIF = os.path.dirname(os.path.dirname(os.path.abspath(__file__)))
 REPO = os.environ.get('VERIF_REPO', '/repo')
 LEAN_DIR = os.path.join(VERIF, 'lean')
-DRIVER = os.path.join(LEAN_DIR, '.lake', 'build', 'bin', 'driver')
+BIN_DIR = os.path.join(LEAN_DIR, '.lake', 'build', 'bin')
 ALLOWED_AXIOMS = {'propext', 'Classical.choice', 'Quot.sound'}
 os.environ['NASDAQ_PROTOCOLS_VERIF'] = '1'          # hook guard (no hooks are currently needed)
 
@@ -119,7 +119,7 @@ class Lean:
         self.audit_ok = None
         self.audit_log = ''
 
-    def build(self, targets=('NasdaqModel', 'driver')):
+    def build(self, targets):
         t0 = time.time()
         lock = open(os.path.join(LEAN_DIR, '.build.lock'), 'w')
         fcntl.flock(lock, fcntl.LOCK_EX)
@@ -193,13 +193,14 @@ class Lean:
 class Driver:
     """the compiled Lean model driver behind a line protocol; batches requests"""
 
-    def __init__(self):
-        self.available = os.path.exists(DRIVER)
+    def __init__(self, exe):
+        self.exe = os.path.join(BIN_DIR, exe)
+        self.available = os.path.exists(self.exe)
 
     def ask(self, lines):
         if not lines:
             return []
-        p = subprocess.run([DRIVER], input='\n'.join(lines) + '\n', capture_output=True, text=True)
+        p = subprocess.run([self.exe], input='\n'.join(lines) + '\n', capture_output=True, text=True)
         if p.returncode != 0:
             raise RuntimeError(f'driver failed: {p.stderr[-2000:]}')
         out = p.stdout.split('\n')
@@ -212,10 +213,12 @@ class Driver:
 
 # ---------------------------------------------------------------- known findings
 def load_known(prop_id):
+    """entries of the committed known-findings file (never written at run time)"""
+    out = []
     path = os.path.join(VERIF, 'known_findings.json')
-    if not os.path.exists(path):
-        return []
-    return [e for e in json.load(open(path)).get('findings', []) if e['property'] == prop_id and e['status'] == 'known']
+    if os.path.exists(path):
+        out += json.load(open(path)).get('findings', [])
+    return [e for e in out if e['property'] == prop_id and e['status'] == 'known']
 
 
 # ---------------------------------------------------------------- run context
@@ -227,7 +230,7 @@ class Ctx:
         self.rng = random.Random(f'{prop_id}-{seed}')
         self.t0 = time.time()
         self.lean = Lean()
-        self.driver = Driver()
+        self.driver = None
         self.violations = []        # (kind, description, replay dict)
         self.known_hits = []        # (finding id, description)
         self.disagreements = []     # model vs impl (not yet violations)
@@ -317,7 +320,7 @@ def finish(ctx, n_theorems_expected=None):
         'theorems': prop_thms,
         'witness_theorems': [n for sub, n in thms if sub == 'Witness'],
         'axioms': {n: lean.audit.get(n) for _, n in thms},
-        'checker_cmd': f'cd {LEAN_DIR} && lake build NasdaqModel && lake env lean .lake/Audit_{ctx.prop}.lean'
+        'checker_cmd': f'cd {LEAN_DIR} && lake build NasdaqModel.Props.{ctx.prop} && lake env lean .lake/Audit_{ctx.prop}.lean'
                        + (' && lake env leanchecker NasdaqModel.Props.' + ctx.prop if ctx.tier == 'thorough' else ''),
         'trusted_base': [
             'Lean 4.33.0 kernel' + (' + leanchecker re-check' if ctx.tier == 'thorough' else ''),
